@@ -84,3 +84,12 @@ def weighted(rng, table):
         if x < 0:
             return it
     return table[-1][1]
+
+
+def quiet() -> bool:
+    """Value for the library's `silent=` parameters: True for most runs; about one run in seven is verbose
+    (plan["_verbose"], drawn by the runner from its own stream) so that code that only runs when the library
+    prints - progress messages that call back into locked getters, for instance - is exercised too.
+    Output goes to a null sink."""
+    k = core.current()
+    return not (k is not None and k.plan.get("_verbose", False))
